@@ -156,7 +156,28 @@ type bridge struct {
 	mu   sync.Mutex
 	// hold captures deliveries for manual release when set
 	hold func(to *mgrFix, chid datatransfer.ChannelID, msg datatransfer.Message, deliver func()) bool
-	// sendsPaused: transports "obey" pause (nothing to emulate here), kept for clarity
+	// log of deliveries with the handler's verdict (what the real transport would act on)
+	log []brDelivery
+}
+
+// brDelivery is one message carried by the emulated transport and the handler's answer.
+type brDelivery struct {
+	To   *mgrFix
+	Chid datatransfer.ChannelID
+	Msg  datatransfer.Message
+	Err  error
+	Seq  int64
+}
+
+func (br *bridge) deliveries() []brDelivery {
+	br.mu.Lock()
+	defer br.mu.Unlock()
+	return append([]brDelivery(nil), br.log...)
+}
+func (br *bridge) note(to *mgrFix, chid datatransfer.ChannelID, m datatransfer.Message, err error) {
+	br.mu.Lock()
+	br.log = append(br.log, brDelivery{to, chid, m, err, doubles.NextSeq()})
+	br.mu.Unlock()
 }
 
 func newBridge(a, b *mgrFix) *bridge {
@@ -198,15 +219,18 @@ func (br *bridge) deliver(from, to *mgrFix, chid datatransfer.ChannelID, msg dat
 	}
 	do := func() {
 		if wire.IsRequest() {
-			resp, _ := to.tp.Events().OnRequestReceived(chid, wire.(datatransfer.Request))
+			resp, err := to.tp.Events().OnRequestReceived(chid, wire.(datatransfer.Request))
+			br.note(to, chid, wire, err)
 			if resp != nil {
 				rw, err := doubles.Reencode(resp)
 				if err == nil {
-					from.tp.Events().OnResponseReceived(chid, rw.(datatransfer.Response))
+					err = from.tp.Events().OnResponseReceived(chid, rw.(datatransfer.Response))
+					br.note(from, chid, rw, err)
 				}
 			}
 		} else {
-			to.tp.Events().OnResponseReceived(chid, wire.(datatransfer.Response))
+			err := to.tp.Events().OnResponseReceived(chid, wire.(datatransfer.Response))
+			br.note(to, chid, wire, err)
 		}
 	}
 	br.mu.Lock()
